@@ -1,0 +1,38 @@
+// Copyright 2021 The Cockroach Authors.
+//
+// Licensed under the Apache License, Version 2.0 (the "License");
+// you may not use this file except in compliance with the License.
+// You may obtain a copy of the License at
+//
+//     http://www.apache.org/licenses/LICENSE-2.0
+//
+// Unless required by applicable law or agreed to in writing, software
+// distributed under the License is distributed on an "AS IS" BASIS,
+// WITHOUT WARRANTIES OR CONDITIONS OF ANY KIND, either express or
+// implied. See the License for the specific language governing
+// permissions and limitations under the License.
+
+//go:build verif
+// +build verif
+
+package verifhooks
+
+import "github.com/cockroachdb/redact/internal/rfmt"
+
+// Printer is an opaque handle on a pooled printer.
+type Printer = rfmt.VerifPrinter
+
+// PrinterState is a read-only copy of a printer's per-call state.
+type PrinterState = rfmt.VerifPrinterState
+
+// SetPoolHooks installs (or, with nil, removes) the pool seam.
+func SetPoolHooks(get func(fromPool *Printer) *Printer, put func(p *Printer) bool) {
+	rfmt.VerifGetHook = get
+	rfmt.VerifPutHook = put
+}
+
+// State returns the per-call state of p.
+func State(p *Printer) PrinterState { return rfmt.VerifState(p) }
+
+// PoisonSpare overwrites the spare capacity of the idle printer's buffer.
+func PoisonSpare(p *Printer, c byte) int { return rfmt.VerifPoison(p, c) }
